@@ -391,19 +391,27 @@ func runC06(c C06Case, o *Obs) error {
 	if err := sc.Create(spec); err != nil {
 		return fmt.Errorf("create: %v", err)
 	}
-	canon := func(r Rows) Rows {
+	canonAt := func(r Rows, pos int) Rows {
 		if !c.KeyClass {
 			return r
 		}
 		out := make(Rows, len(r))
 		for i, row := range r {
 			nr := append([]string(nil), row...)
-			if len(nr) > 0 {
-				nr[0] = cellKeyClass(nr[0])
+			if len(nr) > pos {
+				nr[pos] = cellKeyClass(nr[pos])
 			}
 			out[i] = nr
 		}
 		return out
+	}
+	// generated queries name the key first; "select *" has it where it was declared
+	canon := func(r Rows) Rows { return canonAt(r, 0) }
+	keyPos := 0
+	for i, col := range c.Cols {
+		if col == "k" {
+			keyPos = i
+		}
 	}
 	wt := int64(0)
 	inTxn := false
@@ -418,7 +426,7 @@ func runC06(c C06Case, o *Obs) error {
 		if err != nil {
 			return fmt.Errorf("%s: full scan fails: %v", where, err)
 		}
-		a, b = canon(a), canon(b)
+		a, b = canonAt(a, keyPos), canonAt(b, keyPos)
 		if !a.Sorted().Equal(b.Sorted()) {
 			return fmt.Errorf("%s: table contents differ.\nnative:\n%ss3db:\n%s", where, a.Sorted(), b.Sorted())
 		}
